@@ -367,8 +367,123 @@ fn run_processes(run: &mut Run) {
     }
 }
 
+/// Two dictionary contents as harper-ls would load them from its word-list files one after the
+/// other, and a text that uses the words.
+#[derive(Debug, Clone, Serialize, Deserialize, PartialEq, Eq, Hash)]
+pub struct DictPair {
+    pub before: Vec<String>,
+    pub after: Vec<String>,
+    pub text: String,
+}
+
+fn merged_with(words: &[String]) -> harper_core::MergedDictionary {
+    use harper_core::{MergedDictionary, MutableDictionary, WordMetadata};
+    let mut user = MutableDictionary::new();
+    user.extend_words(words.iter().map(|w| (w.chars().collect::<Vec<char>>(), WordMetadata::default())));
+    let mut m = MergedDictionary::new();
+    m.add_dictionary(FstDictionary::curated());
+    m.add_dictionary(Arc::new(user));
+    m
+}
+
+/// The long-lived server keeps its linter (and the dictionary inside it) for as long as the newly
+/// loaded dictionary compares equal to the one it has (backend.rs:update_document). Whenever two
+/// dictionaries compare equal, linting with either must therefore give the same result.
+pub fn test_dict_pair(c: &DictPair, ctx: &mut CaseCtx) -> Result<(), String> {
+    let a = Arc::new(merged_with(&c.before));
+    let b = Arc::new(merged_with(&c.after));
+    let same_words = {
+        let mut x = c.before.clone();
+        let mut y = c.after.clone();
+        x.sort();
+        x.dedup();
+        y.sort();
+        y.dedup();
+        x == y
+    };
+    if same_words {
+        ctx.class("same_word_set");
+    } else if c.before.iter().map(|w| w.to_lowercase()).collect::<std::collections::BTreeSet<_>>()
+        == c.after.iter().map(|w| w.to_lowercase()).collect::<std::collections::BTreeSet<_>>()
+    {
+        ctx.class("differ_in_capitalisation_only");
+    } else {
+        ctx.class("differ_in_words");
+    }
+    if *a != *b {
+        ctx.class("compared_unequal_linter_rebuilt");
+        return Ok(());
+    }
+    ctx.class("compared_equal_linter_kept");
+    ctx.nontrivial(c);
+    let source: Vec<char> = c.text.chars().collect();
+    let lint_with = |d: Arc<harper_core::MergedDictionary>| {
+        let doc = Document::new_from_vec(Lrc::new(source.clone()), &harper_core::parsers::PlainEnglish, &d);
+        LintGroup::new_curated(d.clone(), DIALECTS[0]).lint(&doc)
+    };
+    let la = lint_with(a);
+    let lb = lint_with(b);
+    if la != lb {
+        return Err(format!(
+            "dictionaries {:?} and {:?} compare equal (so a running server keeps the linter built on the first), but linting {:?} gives {} with the first and {} with the second",
+            c.before, c.after, c.text, render(&la), render(&lb)
+        ));
+    }
+    Ok(())
+}
+
+fn recase(w: &str, how: u8) -> String {
+    match how % 4 {
+        0 => w.to_lowercase(),
+        1 => w.to_uppercase(),
+        2 => {
+            let mut cs = w.chars();
+            cs.next().map(|f| f.to_uppercase().chain(cs.flat_map(|c| c.to_lowercase())).collect()).unwrap_or_default()
+        }
+        _ => w.chars().enumerate().map(|(i, c)| if i % 2 == 0 { c.to_ascii_uppercase() } else { c.to_ascii_lowercase() }).collect(),
+    }
+}
+
+pub fn dict_pair_strategy() -> BoxedStrategy<DictPair> {
+    const VOCAB: [&str; 10] = ["frobnix", "Qwertzu", "markdownlint", "harperls", "O'Brienish", "naïvetéx", "zzyzxq", "McFlurble", "plugh", "xyzzyish"];
+    (
+        proptest::collection::vec((0usize..VOCAB.len(), 0u8..4), 1..4),
+        0u8..6,
+        any::<u16>(),
+        0u8..4,
+        0u8..4,
+    )
+        .prop_map(|(ws, how, pick, c1, c2)| {
+            let before: Vec<String> = ws.iter().map(|(i, c)| recase(VOCAB[*i], *c)).collect();
+            let k = (pick as usize * before.len()) >> 16;
+            let mut after = before.clone();
+            match how {
+                0 => {}
+                1 => after.reverse(),
+                2 | 3 => after[k] = recase(&after[k], c1),
+                4 => after[k] = after[k].replace('\'', "’"),
+                _ => after.push(recase(VOCAB[(pick as usize * VOCAB.len()) >> 16], c2)),
+            }
+            let mut text = String::from("We like");
+            for w in before.iter().chain(after.iter()) {
+                text.push(' ');
+                text.push_str(w);
+                text.push_str(" and");
+                text.push(' ');
+                text.push_str(&recase(w, c2));
+            }
+            text.push_str(" here.");
+            DictPair { before, after, text }
+        })
+        .boxed()
+}
+
 pub fn run(run: &mut Run) {
-    run.rule = "histories of 1-40 ops (SetConfig(G-CONFIG) | Lint(pool doc, language in {plain, markdown, typst, html, rust})) on one long-lived LintGroup; the pool repeats 1-3 generated clauses alone, at other offsets, at the end vs the middle, inside Markdown emphasis and inside a comment so that cache keys recur; after every Lint the result must equal (==, order included) that of a freshly built LintGroup with the current config. Plus: a batch linted by 8 threads (own linters, rotated order) and by one linter moved across threads equals the sequential run; two fresh processes give byte-identical output; an eviction run with >10,000 distinct clauses. Non-trivial = a clause recurs (cache hit) after a config change or in another language.".into();
+    let n = run.n(1_500, 30_000);
+    run.prop("dictionary_change_detection", n, dict_pair_strategy, test_dict_pair);
+    run.require_class("dictionary_change_detection", "compared_equal_linter_kept", (n / 10) as u64);
+    run.require_class("dictionary_change_detection", "differ_in_capitalisation_only", (n / 10) as u64);
+    run.rule = "histories of 1-40 ops (SetConfig(G-CONFIG) | Lint(pool doc, language in {plain, markdown, typst, html, rust})) on one long-lived LintGroup; the pool repeats 1-3 generated clauses alone, at other offsets, at the end vs the middle, inside Markdown emphasis and inside a comment so that cache keys recur; after every Lint the result must equal (==, order included) that of a freshly built LintGroup with the current config. Plus: a batch linted by 8 threads (own linters, rotated order) and by one linter moved across threads equals the sequential run; two fresh processes give byte-identical output; dictionary_change_detection: pairs of user word lists (same / reordered / one entry recapitalised / apostrophe variant / one more word) merged with the curated dictionary as harper-ls does — whenever the two compare equal (the test on which the server keeps its linter) linting a text that uses the words must give the same result with either; an eviction run with >10,000 distinct clauses. Non-trivial = a clause recurs (cache hit) after a config change or in another language.".into();
     let n = run.n(1_500, 30_000);
     run.prop("op_sequences", n, || seq_strategy(40), test_sequence);
     run.require_class("op_sequences", "cache_hit_after_config_change", (n / 4) as u64);
@@ -426,6 +541,10 @@ pub fn replay(check: &str, case: Value, _run: &mut Run) -> Result<(), String> {
         "threads" => {
             let c: BatchCase = serde_json::from_value(case).map_err(|e| e.to_string())?;
             test_threads(&c, &mut ctx)
+        }
+        "dictionary_change_detection" => {
+            let c: DictPair = serde_json::from_value(case).map_err(|e| e.to_string())?;
+            test_dict_pair(&c, &mut ctx)
         }
         "op_sequences" => {
             let c: SeqCase = serde_json::from_value(case).map_err(|e| e.to_string())?;
